@@ -53,7 +53,7 @@ func runC08(c *core.Ctx) {
 	n2 := bt.Range(2, 10, "n2")
 	writes := bt.Bias(1, 2, "writes")
 
-	kind := c.T.Choose(8, "closekind")
+	kind := c.T.Choose(9, "closekind")
 	blockWrites := c.T.Bias(1, 3, "blockwrites")
 	closeErr := c.T.Bias(1, 4, "closeerr")
 	// the application's state handler: 1 = slow (states queue up behind it), 2 = reacts to Closed by calling the
@@ -408,6 +408,18 @@ func runC08(c *core.Ctx) {
 	case 6:
 		run("Close#1", A.A.Close)
 		run("Close#2", A.A.Close)
+	case 8:
+		// the agent and its Conn are closed from two goroutines at once: whichever returns first, the agent is
+		// torn down by then (Conn.Close is a Close of the agent)
+		run("Close", A.A.Close)
+		// (the second call is made once the first one has got as far as it can without simulated time passing:
+		// with a late read wake-up armed it is then still waiting inside the teardown)
+		synctest.Wait()
+		if conn := A.Conn; conn != nil {
+			run("Conn.Close", conn.Close)
+		} else {
+			run("Close#2", A.A.Close)
+		}
 	case 7:
 		// a plain Close first, GracefulClose right behind it: the second call still waits for the callbacks
 		run("Close+GracefulClose", func() error { _ = A.A.Close(); return A.A.GracefulClose() })
